@@ -904,7 +904,7 @@ def main():
     hist["C_filters"] = len(names)
     # block form of every filter: {% filter f(args) %}BODY{% endfilter %} must print exactly what the expression form prints
     # on the captured body ({% set zb %}BODY{% endset %}{{ zb|f(args) }}), and no raw metacharacter from an argument
-    FB_BODIES = ["", "abc", "{{ x }}", "a {{ cap }} b", "  {{ y }}-{{ n }}  "]
+    FB_BODIES = ["", "abc", "{{ x }}", "a {{ cap }} b", "  {{ y }}-{{ n }}  "] if chk.thorough else ["", "abc", "{{ x }} {{ cap }}"]
     fb_cases = []
     for f in names:
         for a in ARGS + ["(x, true)", "('<none>', true)", "(y)", "(fmt)", "('%s', x)", "(sep, x)"]:
